@@ -21,6 +21,9 @@ class BatonScheduler:
         self.max_steps = max_steps
         self.trace = []
         self.abort = False
+        self.kill_at = {}  # task name -> number of yield points after which the task's process dies (kill -9)
+        self.yields = {}
+        self.killed = []
 
     def spawn(self, name, fn):
         st = dict(sem=threading.Semaphore(0), done=False, exc=None, result=None, started=False)
@@ -46,6 +49,11 @@ class BatonScheduler:
         if name is None or threading.current_thread() is not self.tasks[name]["thread"]:
             return  # not inside a scheduled task (e.g. harness set-up code)
         st = self.tasks[name]
+        self.yields[name] = self.yields.get(name, 0) + 1
+        if name in self.kill_at and self.yields[name] > self.kill_at[name]:
+            self.killed.append(name)
+            del self.kill_at[name]
+            raise TaskDied()  # the process is gone: nothing of its current operation happens after this point
         self.main_sem.release()
         st["sem"].acquire()
         if self.abort:
